@@ -61,7 +61,7 @@ CHECKS = {
         text="All 481 templates with every alphabet element of every variable (LLSD-carriable domain) are driven through LLSDMessageSerializer (dict and XML "
              "routes) and EventQueueManager.inject_message and compared value by value; all LLSD trees of depth <= 3 (thorough: <= 4 with the full pair product "
              "at depth 2) over 59 typed leaves go through binary (+/- header), BinaryLLSD spec, notation, XML and zip under 4 process time zones and are compared "
-             "against an independent tagged canonical model (LLSD type, bit-exact reals, instants in microseconds).",
+             "against an independent tagged canonical model (LLSD type, bit-exact reals, instants in microseconds). Reals additionally include F32-widened doubles and vectors made of them, plus a sweep of every F32 exponent and every F64 exponent x mantissa patterns x signs through all six codecs, bit-exact.",
         note="Siblings are each-choice; naive datetime is taken as UTC; strings containing CR are outside the XML route's domain (XML line-end normalisation); "
              "newline-bearing map keys are not held to the notation-newline sentence (it speaks of string values); tz database, msggen/refwire and stdlib "
              "datetime arithmetic trusted."),
